@@ -29,7 +29,7 @@ func init() {
 			"Oracle: no error anywhere; token bytes = type||nonce||SHA-256(challenge)||key id||authenticator assembled by the harness; authenticator length 48/256/256/64; validity decided by circl FullEvaluate (types 1,5) or crypto/rsa.VerifyPSS (types 2,3). " +
 			"Plus: long-lived sessions (one client, one issuer, one issuer-side request object and one receive buffer serve 10-16 runs whose inputs are related to the run before; all argument buffers refilled in place and scribbled over after the call); honest batches / consecutive runs whose different blinded elements agree in their leading or trailing 32 bits (fixture found by cmd/mkcollisions, re-derived at run time) or are equal; type-3 responses re-encrypted by the monitor for every / many values of the first two bytes of the issuer's random response nonce; type-2 runs whose blind signature is a chosen integer (N-1, N-2^64, top 64 bits equal to N's, leading zero bytes, 1, 2: the client's blind is solved for with the issuer key); one RSA key with three prime factors among the fixtures. " +
 			"distinct_nontrivial = distinct (type, key, challenge length, shape) tuples",
-		Floors:      []string{"type1_tokens_valid", "type2_tokens_valid", "type3_tokens_valid", "type5_tokens_valid", "type1_withblind", "type2_withblind", "type5_withblinds", "request_decoded_by_issuer_side_decoder", "decoder_object_reused", "session_runs_valid", "partial_collision_batches_valid", "partial_collision_runs_valid", "type3_response_nonce_prefixes_valid", "type5_batch_with_repeated_element", "type2_constructed_response_values", "runs_complete_across_a_process_suspension", "extreme_element_encodings_valid", "type5_batch_sizes_for_every_prefix_byte", "issuer_serves_after_entropy_fault_on_first_use", "issuer_serves_after_a_transient_entropy_fault"},
+		Floors:      []string{"type1_tokens_valid", "type2_tokens_valid", "type3_tokens_valid", "type5_tokens_valid", "type1_withblind", "type2_withblind", "type5_withblinds", "request_decoded_by_issuer_side_decoder", "decoder_object_reused", "session_runs_valid", "partial_collision_batches_valid", "partial_collision_runs_valid", "type3_response_nonce_prefixes_valid", "type5_batch_with_repeated_element", "type2_constructed_response_values", "runs_complete_across_a_process_suspension", "extreme_element_encodings_valid", "type5_batch_sizes_for_every_prefix_byte", "issuer_serves_after_entropy_fault_on_first_use", "issuer_serves_after_a_transient_entropy_fault", "runs_with_moduli_shorter_than_2048_bits"},
 		Assumptions: []string{"circl oprf/blindrsa, go-hpke and crypto/rsa are the trusted base", "client-internal randomness (crypto/rand) is covered by repetition and by the WithBlind entry points"},
 		Run:         runC01,
 	})
@@ -355,6 +355,13 @@ func c01Type5(c *core.Ctx, i int, keys []*oprf.PrivateKey) {
 		// the same nonce with the same blind twice in one batch: two equal blinded elements, two equal tokens
 		nonces[nb-1], blinds[nb-1] = clone(nonces[0]), clone(blinds[0])
 		c.Class("type5_batch_with_repeated_element")
+	}
+	if !withBlind && nb >= 3 && i%13 == 6 {
+		// the same nonce several times with random blinds ({a, b, a}, the very same slice twice): distinct elements, one
+		// valid token per entry, two of them for the same nonce
+		nonces[nb-1] = clone(nonces[0])
+		nonces[1] = nonces[0]
+		c.Class("type5_batch_with_repeated_nonce")
 	}
 	c.Eval(1)
 	c.Note(fmt.Sprintf("type5 flow key=%d clen=%d n=%d", ki, len(challenge), nb))
